@@ -40,15 +40,23 @@ NoFault == [k |-> "none"]
 DelOf(c) == CHOOSE x \in CId : CV(x) = [CV(c) EXCEPT !.d = TRUE]
 HasDelOf(c) == \E x \in CId : CV(x) = [CV(c) EXCEPT !.d = TRUE]
 
-\* transforms (what the JavaScript of the harness does)
-RECURSIVE Xf(_, _)
-Xf(kind, items) ==
+\* transforms (what the JavaScript of the harness does).  Element-wise ones build a new array ...
+RECURSIVE XfE(_, _)
+XfE(kind, items) ==
   IF items = <<>> THEN <<>>
   ELSE LET x == items[1]
-           rest == Xf(kind, Tail(items))
+           rest == XfE(kind, Tail(items))
        IN CASE kind \in {"none", "identity"} -> <<x>> \o rest
             [] kind = "dup"                  -> <<x, x>> \o rest
             [] kind = "dropdel"              -> IF IsDel(x[2]) THEN rest ELSE <<x>> \o rest
+\* ... the others change the array they were handed IN PLACE and return it (push / unshift / pop); they are
+\* defined on the whole page and are only used with parallelism 1
+Xf(kind, items) ==
+  IF items = <<>> THEN <<>>
+  ELSE CASE kind = "pushfirst"   -> items \o <<items[1]>>
+         [] kind = "unshiftlast" -> <<items[Len(items)]>> \o items
+         [] kind = "popdrop"     -> SubSeq(items, 1, Len(items) - 1)
+         [] OTHER                -> XfE(kind, items)
 
 \* the pump over ONE source member: read a page, transform, write, store token -- until an
 \* empty page.  st = [f, np, tok, calls, n, out, seen, done]
